@@ -32,7 +32,7 @@ ASSUMPTIONS = ["first column compared with the requested initial state cast to t
                "half precisions: only default-scale parameters; missing CPU kernels (NotImplementedError / 'not implemented for') are tolerated and counted"]
 PROBES = ["qe_psi_le_1.5", "qe_psi_gt_1.5", "init_nondefault", "init_default", "resim_shape_change", "via_derivative",
           "via_compute_loss", "via_price", "via_fit", "via_lazy_materialisation", "default_dtype_flip", "cast_then_simulate",
-          "n_steps_1", "n_steps_2", "half_precision", "half_kernel_missing", "generator_direct", "float64", "volatility_checked_after_cast"]
+          "n_steps_1", "n_steps_2", "half_precision", "half_kernel_missing", "generator_direct", "float64", "volatility_checked_after_cast", "init_bare_scalar"]
 BUFFERS = {"BrownianStock": ["spot"], "HestonStock": ["spot", "variance"], "CIRRate": ["spot"], "VasicekRate": ["spot"],
            "MertonJumpStock": ["spot"], "KouJumpStock": ["spot"], "RoughBergomiStock": ["spot", "variance"],
            "LocalVolatilityStock": ["spot", "volatility"]}
@@ -196,7 +196,11 @@ def check_series(site, kind, bufs, n_paths, n_steps, init, params, dtype, stats,
 
 
 def _norm_init(init):
-    return None if init is None else tuple(float(x) for x in init)
+    if init is None:
+        return None
+    if isinstance(init, (int, float)) or (isinstance(init, torch.Tensor) and init.dim() == 0):
+        return (float(init),)
+    return tuple(float(x) for x in init)
 
 
 class SimWatcher:
@@ -242,9 +246,10 @@ class SimWatcher:
             raise Violation(ID, "buffer_names", site, {"buffers": sorted(bufs), "documented": want}, seq)
         bufs = {n: bufs[n] for n in want}
         T = bufs["spot"].shape[1] if bufs["spot"].dim() == 2 else -1
-        init = list(init_state) if init_state is not None else default_init(self.kind, self.params)
-        if isinstance(init_state, (int, float)):
-            init = [init_state]
+        if isinstance(init_state, (int, float)) or (isinstance(init_state, torch.Tensor) and init_state.dim() == 0):
+            init = [float(init_state)]
+        else:
+            init = list(init_state) if init_state is not None else default_init(self.kind, self.params)
         check_series(site, self.kind, bufs, n_paths, T, init, self.params, dtype, st, seq, self.kind in EXPO)
         if T <= 2:
             st.probe("n_steps_%d" % T) if T >= 1 else None
@@ -365,6 +370,10 @@ def _one_op(op, world, stats, hist, p, d, h, w, st_mod):
         name = op["op"]
         stats.op(name if name not in ("via", "generate") else (name + ":" + (op.get("kind") if name == "via" else op["fn"])))
         init = tuple(op["init_state"]) if op.get("init_state") is not None else None
+        if init is not None and len(init) == 1 and op.get("torch_seed", 0) % 3 == 0 and name == "simulate":
+            # "It also accepts a float or a torch.Tensor": a bare scalar instead of a 1-tuple
+            init = init[0] if op["torch_seed"] % 2 else torch.tensor(init[0])
+            stats.probe("init_bare_scalar")
         if name == "simulate":
             torch.manual_seed(op["torch_seed"])
             w.expect = {"n_paths": op["n_paths"], "init_state": init}
